@@ -1,9 +1,1213 @@
-//! stub — being built
+//! C18 — SOCKS4/4a/5 messages are parsed and produced exactly per the RFCs.
+//!
+//! Bounded-exhaustive enumeration of requests (every truncation point, three
+//! delivery patterns, EOF or silence at the end of the input), replies and UDP
+//! relay headers against the reference grammar in `c18_ref.rs`.
+
+#[path = "c18_io.rs"]
+mod io;
+#[path = "c18_ref.rs"]
+mod rf;
+
 use crate::Args;
-use crate::report::Report;
+use crate::report::{Report, hex, unhex};
+use bytes::Bytes;
+use io::{Mock, Ran, block_on};
+use penguin_socks::{Error, v4, v5};
+use rf::{Addr, Host4, Parse4, Parse5};
+use serde_json::{Value, json};
+use std::collections::{BTreeMap, HashMap, HashSet};
+use std::hash::{Hash, Hasher};
+use std::net::{Ipv4Addr, Ipv6Addr, SocketAddr, SocketAddrV4, SocketAddrV6};
+use std::panic::{AssertUnwindSafe, catch_unwind};
+use std::sync::Mutex;
+
+// ---------------------------------------------------------------- cases
+
+/// How the input reaches the reader.
+#[derive(Clone, Copy, Debug, PartialEq, Eq)]
+struct Tr {
+    /// 0 all at once, 1 one byte per poll with `Pending` in between,
+    /// 2 tokio `BufReader` over (1) (the production arrangement), 3 `std::io::Cursor`
+    kind: u8,
+    /// silence instead of EOF at the end of the input
+    hang: bool,
+}
+
+impl Tr {
+    fn name(self) -> String {
+        format!("{}{}", ["eager", "trickle", "bufreader-trickle", "cursor"][self.kind as usize], if self.hang { "+silence" } else { "+eof" })
+    }
+}
+
+const TRANSPORTS: [Tr; 5] = [
+    Tr { kind: 0, hang: false },
+    Tr { kind: 1, hang: false },
+    Tr { kind: 2, hang: false },
+    Tr { kind: 0, hang: true },
+    Tr { kind: 1, hang: true },
+];
+const CURSOR: Tr = Tr { kind: 3, hang: false };
+
+#[derive(Clone, Debug)]
+enum Case {
+    Req5(Vec<u8>, Tr),
+    Req4(Vec<u8>, Tr),
+    Auth(Vec<u8>, Tr),
+    Reply5 { rep: u8, addr: Addr, port: u16, scoped: bool, trickle: bool },
+    Reply5Unspec { rep: u8, trickle: bool },
+    AuthSel { method: u8, trickle: bool },
+    Reply4 { rep: u8, trickle: bool },
+    UdpBuild { addr: Addr, port: u16, len: usize },
+    UdpParse(Vec<u8>),
+}
+
+fn addr_json(a: &Addr) -> Value {
+    match a {
+        Addr::V4(o) => json!({"v4": hex(o)}),
+        Addr::V6(o) => json!({"v6": hex(o)}),
+        Addr::Domain(d) => json!({"domain": hex(d)}),
+    }
+}
+
+fn addr_from(v: &Value) -> Addr {
+    if let Some(h) = v.get("v4").and_then(Value::as_str) {
+        Addr::V4(unhex(h).try_into().expect("4 octets"))
+    } else if let Some(h) = v.get("v6").and_then(Value::as_str) {
+        Addr::V6(unhex(h).try_into().expect("16 octets"))
+    } else {
+        Addr::Domain(unhex(v["domain"].as_str().expect("addr")))
+    }
+}
+
+impl Case {
+    fn to_json(&self) -> Value {
+        let tr = |t: &Tr| json!({"kind": t.kind, "silence_at_end": t.hang, "name": t.name()});
+        match self {
+            Case::Req5(b, t) => json!({"kind": "socks5-request", "input_hex": hex(b), "transport": tr(t)}),
+            Case::Req4(b, t) => json!({"kind": "socks4-request-after-VN", "input_hex": hex(b), "transport": tr(t)}),
+            Case::Auth(b, t) => json!({"kind": "socks5-auth-methods-after-VER", "input_hex": hex(b), "transport": tr(t)}),
+            Case::Reply5 { rep, addr, port, scoped, trickle } => {
+                json!({"kind": "socks5-reply", "rep": rep, "addr": addr_json(addr), "port": port, "scoped": scoped, "trickle": trickle})
+            }
+            Case::Reply5Unspec { rep, trickle } => json!({"kind": "socks5-reply-unspecified", "rep": rep, "trickle": trickle}),
+            Case::AuthSel { method, trickle } => json!({"kind": "socks5-method-selection", "method": method, "trickle": trickle}),
+            Case::Reply4 { rep, trickle } => json!({"kind": "socks4-reply", "rep": rep, "trickle": trickle}),
+            Case::UdpBuild { addr, port, len } => json!({"kind": "udp-relay-build", "addr": addr_json(addr), "port": port, "payload_len": len}),
+            Case::UdpParse(b) => json!({"kind": "udp-relay-parse", "input_hex": hex(b)}),
+        }
+    }
+
+    fn from_json(v: &Value) -> Case {
+        let s = |k: &str| v[k].as_str().unwrap_or_else(|| panic!("replay: missing {k}"));
+        let n = |k: &str| v[k].as_u64().unwrap_or_else(|| panic!("replay: missing {k}"));
+        let b = |k: &str| v[k].as_bool().unwrap_or(false);
+        let tr = || Tr { kind: v["transport"]["kind"].as_u64().unwrap_or(0) as u8, hang: v["transport"]["silence_at_end"].as_bool().unwrap_or(false) };
+        match s("kind") {
+            "socks5-request" => Case::Req5(unhex(s("input_hex")), tr()),
+            "socks4-request-after-VN" => Case::Req4(unhex(s("input_hex")), tr()),
+            "socks5-auth-methods-after-VER" => Case::Auth(unhex(s("input_hex")), tr()),
+            "socks5-reply" => Case::Reply5 { rep: n("rep") as u8, addr: addr_from(&v["addr"]), port: n("port") as u16, scoped: b("scoped"), trickle: b("trickle") },
+            "socks5-reply-unspecified" => Case::Reply5Unspec { rep: n("rep") as u8, trickle: b("trickle") },
+            "socks5-method-selection" => Case::AuthSel { method: n("method") as u8, trickle: b("trickle") },
+            "socks4-reply" => Case::Reply4 { rep: n("rep") as u8, trickle: b("trickle") },
+            "udp-relay-build" => Case::UdpBuild { addr: addr_from(&v["addr"]), port: n("port") as u16, len: n("payload_len") as usize },
+            "udp-relay-parse" => Case::UdpParse(unhex(s("input_hex"))),
+            other => panic!("replay: unknown case kind {other}"),
+        }
+    }
+
+    fn size(&self) -> usize {
+        match self {
+            Case::Req5(b, _) | Case::Req4(b, _) | Case::Auth(b, _) | Case::UdpParse(b) => b.len(),
+            Case::UdpBuild { len, .. } => *len,
+            _ => 0,
+        }
+    }
+}
+
+fn payload(len: usize) -> Vec<u8> {
+    (0..len).map(|i| (i as u8).wrapping_mul(37).wrapping_add(0xa5)).collect()
+}
+
+// ---------------------------------------------------------------- accumulation
+
+#[derive(Default)]
+struct Acc {
+    evals: u64,
+    viol: HashMap<String, (String, Value, usize, u64)>,
+    cls: BTreeMap<String, u64>,
+    /// observation text of the last case (filled only when asked for: replay)
+    obs: Option<String>,
+}
+
+impl Acc {
+    fn v(&mut self, key: String, desc: String, case: &Case) {
+        let size = case.size();
+        match self.viol.get_mut(&key) {
+            Some(e) => {
+                e.3 += 1;
+                if size < e.2 {
+                    *e = (desc, case.to_json(), size, e.3);
+                }
+            }
+            None => {
+                self.viol.insert(key, (desc, case.to_json(), size, 1));
+            }
+        }
+    }
+    fn c(&mut self, name: &str) {
+        *self.cls.entry(name.to_string()).or_default() += 1;
+    }
+    fn merge(&mut self, o: Acc) {
+        self.evals += o.evals;
+        for (k, n) in o.cls {
+            *self.cls.entry(k).or_default() += n;
+        }
+        for (k, (d, r, s, n)) in o.viol {
+            match self.viol.get_mut(&k) {
+                Some(e) => {
+                    let total = e.3 + n;
+                    if s < e.2 {
+                        *e = (d, r, s, total);
+                    } else {
+                        e.3 = total;
+                    }
+                }
+                None => {
+                    self.viol.insert(k, (d, r, s, n));
+                }
+            }
+        }
+    }
+}
+
+// ---------------------------------------------------------------- running the subject
+
+#[derive(Debug)]
+enum Out<T> {
+    Ok(T),
+    Err(String),
+    Hung,
+    Panic(String),
+}
+
+impl<T> Out<T> {
+    fn kind(&self) -> &'static str {
+        match self {
+            Out::Ok(_) => "ok",
+            Out::Err(_) => "err",
+            Out::Hung => "waits",
+            Out::Panic(_) => "panic",
+        }
+    }
+}
+
+fn panic_text(e: &(dyn std::any::Any + Send)) -> String {
+    crate::sim::take_last_panic().unwrap_or_else(|| {
+        e.downcast_ref::<String>().cloned().or_else(|| e.downcast_ref::<&str>().map(|s| (*s).to_string())).unwrap_or_else(|| "<panic>".into())
+    })
+}
+
+/// Result of feeding `input` to a reader: outcome, bytes consumed, bytes written back.
+struct ReadRun<T> {
+    out: Out<T>,
+    consumed: usize,
+    written: Vec<u8>,
+}
+
+macro_rules! drive {
+    ($input:expr, $tr:expr, |$s:ident| $call:expr) => {{
+        let input: &[u8] = $input;
+        let tr: Tr = $tr;
+        let budget = 4 * input.len() + 64;
+        let mut mock = Mock::new(input, tr.kind != 0, tr.hang);
+        let (res, consumed) = if tr.kind == 2 {
+            let mut br = tokio::io::BufReader::new(&mut mock);
+            let res = catch_unwind(AssertUnwindSafe(|| {
+                let $s = &mut br;
+                block_on($call, budget)
+            }));
+            let unread = br.buffer().len();
+            drop(br);
+            (res, mock.pos - unread)
+        } else {
+            let res = catch_unwind(AssertUnwindSafe(|| {
+                let $s = &mut mock;
+                block_on($call, budget)
+            }));
+            (res, mock.pos)
+        };
+        let out = match res {
+            Err(e) => Out::Panic(panic_text(&*e)),
+            Ok(Ran::Hung) => Out::Hung,
+            Ok(Ran::Done(Ok(v))) => Out::Ok(v),
+            Ok(Ran::Done(Err(e))) => Out::Err(format!("{e:?}")),
+        };
+        ReadRun { out, consumed, written: std::mem::take(&mut mock.out) }
+    }};
+}
+
+/// Which field of a SOCKS5 request an input of this length ends in.
+fn field_of_cut5(len: usize) -> &'static str {
+    match len {
+        0 => "ver",
+        1 => "cmd",
+        2 => "rsv",
+        3 => "atyp",
+        _ => "addr-or-port",
+    }
+}
+
+fn check_req5(b: &[u8], tr: Tr, acc: &mut Acc, want_obs: bool) {
+    acc.evals += 1;
+    let case = || Case::Req5(b.to_vec(), tr);
+    let want = rf::parse_request5(b);
+    let run: ReadRun<(u8, Vec<u8>, u16)> = drive!(b, tr, |s| v5::read_request(s));
+    if want_obs {
+        acc.obs = Some(format!("{:?} consumed={} written={}", run.out, run.consumed, hex(&run.written)));
+    }
+    let cls = match &want {
+        Parse5::Complete { addr, .. } => format!("complete.{}", addr.class()),
+        Parse5::Incomplete => "truncated".into(),
+        Parse5::BadVersion(_) => "bad-version".into(),
+        Parse5::BadAtyp(_) => "bad-atyp".into(),
+    };
+    acc.c(&format!("req5.{cls}.{}", run.out.kind()));
+    if let Out::Panic(m) = &run.out {
+        acc.v(format!("req5.panic.{cls}"), format!("v5::read_request panicked ({m}) on {} via {}", hex(b), tr.name()), &case());
+        return;
+    }
+    if matches!(run.out, Out::Hung) && !tr.hang {
+        acc.v(format!("req5.no-termination.{cls}"), format!("v5::read_request does not finish although the input {} ends with EOF ({})", hex(b), tr.name()), &case());
+        return;
+    }
+    match (&want, &run.out) {
+        (Parse5::Complete { cmd, rsv, addr, port, used }, Out::Ok((gc, ga, gp))) => {
+            let mut wrong = Vec::new();
+            if gc != cmd {
+                wrong.push("command");
+            }
+            if gp != port {
+                wrong.push("port");
+            }
+            if !rf::text_denotes(ga, addr) {
+                wrong.push("address");
+            }
+            if !wrong.is_empty() {
+                acc.v(
+                    format!("req5.fields.{}.{}", addr.class(), wrong.join("+")),
+                    format!(
+                        "v5::read_request({}) returns cmd={gc} addr={:?} port={gp}; RFC 1928 assigns cmd={cmd} addr={} port={port}",
+                        hex(b),
+                        String::from_utf8_lossy(ga),
+                        addr.describe()
+                    ),
+                    &case(),
+                );
+            }
+            if run.consumed != *used {
+                let dir = if run.consumed > *used { "too-many" } else { "too-few" };
+                acc.v(
+                    format!("req5.consumed.{}.{dir}", addr.class()),
+                    format!("v5::read_request consumed {} bytes of {}; the request is {used} bytes long ({})", run.consumed, hex(b), tr.name()),
+                    &case(),
+                );
+            }
+            if !run.written.is_empty() {
+                acc.v("req5.unexpected-write".into(), format!("v5::read_request wrote {} while reading the valid request {}", hex(&run.written), hex(b)), &case());
+            }
+            if *rsv != 0 || !matches!(cmd, 1..=3) {
+                acc.c("req5.lenient.accepted-odd-rsv-or-cmd");
+            }
+        }
+        (Parse5::Complete { cmd, rsv, addr, .. }, Out::Err(e)) => {
+            if *rsv != 0 || !matches!(cmd, 1..=3) {
+                // a non-zero RSV or an undefined CMD may be refused by the reader or left to the caller
+                acc.c("req5.lenient.rejected-odd-rsv-or-cmd");
+            } else {
+                acc.v(format!("req5.reject-valid.{}", addr.class()), format!("v5::read_request rejects the well-formed request {} with {e} ({})", hex(b), tr.name()), &case());
+            }
+        }
+        (Parse5::Complete { addr, used, .. }, Out::Hung) => {
+            acc.v(
+                format!("req5.waits-beyond-request.{}", addr.class()),
+                format!("v5::read_request still waits for input after the complete {used}-byte request {} ({})", hex(b), tr.name()),
+                &case(),
+            );
+        }
+        (Parse5::Incomplete, Out::Ok((gc, ga, gp))) => {
+            acc.v(
+                format!("req5.truncated-accepted.{}", field_of_cut5(b.len())),
+                format!("v5::read_request returns Ok(cmd={gc}, addr={:?}, port={gp}) for the truncated request {} ({})", String::from_utf8_lossy(ga), hex(b), tr.name()),
+                &case(),
+            );
+        }
+        (Parse5::BadVersion(v), Out::Ok(_)) => {
+            acc.v("req5.accept-bad-version".into(), format!("v5::read_request accepts version {v}: {}", hex(b)), &case());
+        }
+        (Parse5::BadAtyp(a), Out::Ok(_)) => {
+            acc.v("req5.accept-bad-atyp".into(), format!("v5::read_request accepts address type {a}: {}", hex(b)), &case());
+        }
+        (Parse5::BadAtyp(a), Out::Err(_)) => {
+            // a reply on this path is optional; if there is one it must be a proper "address type not supported"
+            if !run.written.is_empty() {
+                let ok = rf::parse_reply5(&run.written).is_some_and(|(rep, _, _)| rep == 8);
+                if !ok {
+                    acc.v(
+                        "req5.bad-atyp-reply".into(),
+                        format!("on address type {a} v5::read_request wrote {} which is not an RFC 1928 reply with REP=08", hex(&run.written)),
+                        &case(),
+                    );
+                }
+                acc.c("req5.bad-atyp.reply-written");
+            }
+        }
+        // errors and (under silence) waiting are what the statement asks for on bad input
+        (Parse5::Incomplete | Parse5::BadVersion(_), Out::Err(_)) | (Parse5::Incomplete | Parse5::BadVersion(_) | Parse5::BadAtyp(_), Out::Hung) => {}
+        (_, Out::Panic(_)) => unreachable!(),
+    }
+}
+
+fn check_req4(b: &[u8], tr: Tr, acc: &mut Acc, want_obs: bool) {
+    acc.evals += 1;
+    let case = || Case::Req4(b.to_vec(), tr);
+    let want = rf::parse_request4(b);
+    let run: ReadRun<(u8, Vec<u8>, u16)> = if tr.kind == 3 {
+        let mut cur = std::io::Cursor::new(b.to_vec());
+        let res = catch_unwind(AssertUnwindSafe(|| block_on(v4::read_request(&mut cur), 4 * b.len() + 64)));
+        let out = match res {
+            Err(e) => Out::Panic(panic_text(&*e)),
+            Ok(Ran::Hung) => Out::Hung,
+            Ok(Ran::Done(Ok(v))) => Out::Ok(v),
+            Ok(Ran::Done(Err(e))) => Out::Err(format!("{e:?}")),
+        };
+        ReadRun { out, consumed: cur.position() as usize, written: Vec::new() }
+    } else {
+        drive!(b, tr, |s| v4::read_request(s))
+    };
+    if want_obs {
+        acc.obs = Some(format!("{:?} consumed={}", run.out, run.consumed));
+    }
+    let cls = match &want {
+        Parse4::Complete { host: Host4::Ip(_), .. } => "complete.socks4",
+        Parse4::Complete { host: Host4::Domain(_), .. } => "complete.socks4a",
+        Parse4::Incomplete => "truncated",
+        Parse4::Outside => "outside-conventions",
+    };
+    acc.c(&format!("req4.{cls}.{}", run.out.kind()));
+    if let Out::Panic(m) = &run.out {
+        acc.v(format!("req4.panic.{cls}"), format!("v4::read_request panicked ({m}) on {} via {}", hex(b), tr.name()), &case());
+        return;
+    }
+    if matches!(run.out, Out::Hung) && !tr.hang {
+        acc.v(format!("req4.no-termination.{cls}"), format!("v4::read_request does not finish although the input {} ends with EOF ({})", hex(b), tr.name()), &case());
+        return;
+    }
+    match (&want, &run.out) {
+        (Parse4::Outside, _) => {} // only "no panic, terminates" is demanded
+        (Parse4::Complete { cmd, host, port, used, user_len }, Out::Ok((gc, ga, gp))) => {
+            let (host_ok, hcls, hdesc) = match host {
+                Host4::Ip(o) => (ga.as_slice() == rf::dotted(*o).as_bytes(), "socks4", rf::dotted(*o)),
+                Host4::Domain(d) => (ga == d, "socks4a", format!("domain[{}] {:?}", d.len(), String::from_utf8_lossy(&d[..d.len().min(16)]))),
+            };
+            let mut wrong = Vec::new();
+            if gc != cmd {
+                wrong.push("command");
+            }
+            if gp != port {
+                wrong.push("port");
+            }
+            if !host_ok {
+                wrong.push("address");
+            }
+            if !wrong.is_empty() {
+                acc.v(
+                    format!("req4.fields.{hcls}.{}", wrong.join("+")),
+                    format!(
+                        "v4::read_request({}) returns cmd={gc} addr={:?} port={gp}; the protocol assigns cmd={cmd} addr={hdesc} port={port} (user-id of {user_len} bytes)",
+                        hex(b),
+                        String::from_utf8_lossy(&ga[..ga.len().min(32)])
+                    ),
+                    &case(),
+                );
+            }
+            if run.consumed != *used {
+                let dir = if run.consumed > *used { "too-many" } else { "too-few" };
+                acc.v(
+                    format!("req4.consumed.{hcls}.{dir}"),
+                    format!("v4::read_request consumed {} bytes of {}; the request is {used} bytes long ({})", run.consumed, hex(b), tr.name()),
+                    &case(),
+                );
+            }
+        }
+        (Parse4::Complete { cmd, host, .. }, Out::Err(e)) => {
+            let empty_domain = matches!(host, Host4::Domain(d) if d.is_empty());
+            if empty_domain || !matches!(cmd, 1 | 2) {
+                // an empty SOCKS4a name or an undefined CD may be refused by the reader or left to the caller
+                acc.c("req4.lenient.rejected-empty-domain-or-odd-cmd");
+            } else {
+                let hcls = if matches!(host, Host4::Ip(_)) { "socks4" } else { "socks4a" };
+                acc.v(format!("req4.reject-valid.{hcls}"), format!("v4::read_request rejects the well-formed request {} with {e} ({})", hex(b), tr.name()), &case());
+            }
+        }
+        (Parse4::Complete { host, used, .. }, Out::Hung) => {
+            let hcls = if matches!(host, Host4::Ip(_)) { "socks4" } else { "socks4a" };
+            acc.v(
+                format!("req4.waits-beyond-request.{hcls}"),
+                format!("v4::read_request still waits for input after the complete {used}-byte request {} ({})", hex(b), tr.name()),
+                &case(),
+            );
+        }
+        (Parse4::Incomplete, Out::Ok((gc, ga, gp))) => {
+            // where does the input stop?
+            let place = if b.len() < 7 {
+                "fixed-fields"
+            } else if !b[7..].contains(&0) {
+                "user-id"
+            } else {
+                "domain"
+            };
+            acc.v(
+                format!("req4.truncated-accepted.{place}"),
+                format!(
+                    "v4::read_request returns Ok(cmd={gc}, addr={:?}, port={gp}) for the request {} that ends inside the {place} without its NUL terminator ({})",
+                    String::from_utf8_lossy(&ga[..ga.len().min(32)]),
+                    hex(b),
+                    tr.name()
+                ),
+                &case(),
+            );
+        }
+        (Parse4::Incomplete, Out::Err(_) | Out::Hung) => {}
+        (_, Out::Panic(_)) => unreachable!(),
+    }
+}
+
+fn check_auth(b: &[u8], tr: Tr, acc: &mut Acc, want_obs: bool) {
+    acc.evals += 1;
+    let case = || Case::Auth(b.to_vec(), tr);
+    // RFC 1928 §3 after VER: NMETHODS, METHODS[NMETHODS]
+    let want: Option<(Vec<u8>, usize)> = b.first().and_then(|&n| (b.len() > usize::from(n)).then(|| (b[1..=usize::from(n)].to_vec(), 1 + usize::from(n))));
+    let run: ReadRun<Vec<u8>> = if tr.kind == 3 {
+        let mut cur = std::io::Cursor::new(b.to_vec());
+        let res = catch_unwind(AssertUnwindSafe(|| block_on(v5::read_auth_methods(&mut cur), 4 * b.len() + 64)));
+        let out = match res {
+            Err(e) => Out::Panic(panic_text(&*e)),
+            Ok(Ran::Hung) => Out::Hung,
+            Ok(Ran::Done(Ok(v))) => Out::Ok(v),
+            Ok(Ran::Done(Err(e))) => Out::Err(format!("{e:?}")),
+        };
+        ReadRun { out, consumed: cur.position() as usize, written: Vec::new() }
+    } else {
+        drive!(b, tr, |s| v5::read_auth_methods(s))
+    };
+    if want_obs {
+        acc.obs = Some(format!("{:?} consumed={}", run.out, run.consumed));
+    }
+    let cls = if want.is_some() { "complete" } else { "truncated" };
+    acc.c(&format!("auth.{cls}.{}", run.out.kind()));
+    match (&want, &run.out) {
+        (_, Out::Panic(m)) => acc.v(format!("auth.panic.{cls}"), format!("v5::read_auth_methods panicked ({m}) on {}", hex(b)), &case()),
+        (_, Out::Hung) if !tr.hang => acc.v(format!("auth.no-termination.{cls}"), format!("v5::read_auth_methods does not finish on {} + EOF", hex(b)), &case()),
+        (Some((m, used)), Out::Ok(g)) => {
+            if g != m {
+                acc.v("auth.fields".into(), format!("v5::read_auth_methods({}) returns {} instead of {}", hex(b), hex(g), hex(m)), &case());
+            }
+            if run.consumed != *used {
+                acc.v("auth.consumed".into(), format!("v5::read_auth_methods consumed {} bytes, the message has {used} ({})", run.consumed, tr.name()), &case());
+            }
+        }
+        (Some(_), Out::Err(e)) => acc.v("auth.reject-valid".into(), format!("v5::read_auth_methods rejects {} with {e}", hex(b)), &case()),
+        (Some(_), Out::Hung) => acc.v("auth.waits-beyond-message".into(), format!("v5::read_auth_methods waits for more than the complete message {}", hex(b)), &case()),
+        (None, Out::Ok(g)) => acc.v("auth.truncated-accepted".into(), format!("v5::read_auth_methods returns Ok({}) for the truncated message {}", hex(g), hex(b)), &case()),
+        (None, Out::Err(_) | Out::Hung) => {}
+    }
+}
+
+/// Run a writer against a fresh sink; yields (outcome, bytes written).
+macro_rules! sink_run {
+    ($trickle:expr, |$w:ident| $call:expr) => {{
+        let mut mock = Mock::new(&[], $trickle, false);
+        let res = catch_unwind(AssertUnwindSafe(|| {
+            let $w = &mut mock;
+            block_on($call, 256)
+        }));
+        let out: Out<()> = match res {
+            Err(e) => Out::Panic(panic_text(&*e)),
+            Ok(Ran::Hung) => Out::Hung,
+            Ok(Ran::Done(Ok(()))) => Out::Ok(()),
+            Ok(Ran::Done(Err(e))) => Out::Err(format!("{e:?}")),
+        };
+        (out, std::mem::take(&mut mock.out))
+    }};
+}
+
+fn sockaddr(addr: &Addr, port: u16, scoped: bool) -> SocketAddr {
+    match addr {
+        Addr::V4(o) => SocketAddr::V4(SocketAddrV4::new(Ipv4Addr::new(o[0], o[1], o[2], o[3]), port)),
+        Addr::V6(o) => SocketAddr::V6(SocketAddrV6::new(Ipv6Addr::from(*o), port, if scoped { 7 } else { 0 }, if scoped { 5 } else { 0 })),
+        Addr::Domain(_) => panic!("no socket address for a domain"),
+    }
+}
+
+fn check_writer(case: &Case, acc: &mut Acc, want_obs: bool) {
+    acc.evals += 1;
+    // (key, outcome, bytes, complaint about the bytes)
+    let (name, out, bytes, complaint): (&str, Out<()>, Vec<u8>, Option<String>) = match case {
+        Case::Reply5 { rep, addr, port, scoped, trickle } => {
+            let sa = sockaddr(addr, *port, *scoped);
+            let want = rf::build_reply5(*rep, addr, *port);
+            let (out, got) = sink_run!(*trickle, |w| v5::write_response(w, *rep, sa));
+            let c = (got != want).then(|| format!("v5::write_response(rep={rep}, {sa}) wrote {}, RFC 1928 §6 prescribes {}", hex(&got), hex(&want)));
+            (if matches!(addr, Addr::V4(_)) { "reply5.bytes.ipv4" } else { "reply5.bytes.ipv6" }, out, got, c)
+        }
+        Case::Reply5Unspec { rep, trickle } => {
+            let (out, got) = sink_run!(*trickle, |w| v5::write_response_unspecified(w, *rep));
+            let ok = rf::parse_reply5(&got).is_some_and(|(r, a, p)| {
+                let zero = match &a {
+                    Addr::V4(o) => o.iter().all(|&x| x == 0),
+                    Addr::V6(o) => o.iter().all(|&x| x == 0),
+                    Addr::Domain(_) => false,
+                };
+                r == *rep && p == 0 && zero
+            });
+            let c = (!ok).then(|| format!("v5::write_response_unspecified(rep={rep}) wrote {}, not an RFC 1928 reply with that code and an all-zero bound address", hex(&got)));
+            ("reply5.unspecified", out, got, c)
+        }
+        Case::AuthSel { method, trickle } => {
+            let (out, got) = sink_run!(*trickle, |w| v5::write_auth_method(w, *method));
+            let c = (got != [5, *method]).then(|| format!("v5::write_auth_method({method}) wrote {}, RFC 1928 §3 prescribes 05{method:02x}", hex(&got)));
+            ("authsel.bytes", out, got, c)
+        }
+        Case::Reply4 { rep, trickle } => {
+            let (out, got) = sink_run!(*trickle, |w| v4::write_response(w, *rep));
+            // VN = 0, CD = code, then DSTPORT/DSTIP which the client ignores for CONNECT
+            let c = (got.len() != 8 || got[0] != 0 || got[1] != *rep).then(|| format!("v4::write_response({rep}) wrote {}, SOCKS4 prescribes 8 bytes 00 {rep:02x} ..", hex(&got)));
+            ("reply4.bytes", out, got, c)
+        }
+        _ => unreachable!(),
+    };
+    if want_obs {
+        acc.obs = Some(format!("{out:?} wrote={}", hex(&bytes)));
+    }
+    acc.c(&format!("{}.{}", name.split('.').next().unwrap_or(name), out.kind()));
+    match out {
+        Out::Panic(m) => acc.v(format!("{name}.panic"), format!("writer panicked: {m}"), case),
+        Out::Hung => acc.v(format!("{name}.no-termination"), "writer does not finish on a sink that always accepts".into(), case),
+        Out::Err(e) => acc.v(format!("{name}.error"), format!("writer fails on a healthy sink: {e}"), case),
+        Out::Ok(()) => {
+            if let Some(d) = complaint {
+                acc.v(name.to_string(), d, case);
+            }
+        }
+    }
+}
+
+fn check_udp_build(addr: &Addr, port: u16, len: usize, acc: &mut Acc, want_obs: bool) {
+    acc.evals += 1;
+    let case = Case::UdpBuild { addr: addr.clone(), port, len };
+    let data = payload(len);
+    let sa = sockaddr(addr, port, false);
+    let fam = addr.class();
+    let got = catch_unwind(AssertUnwindSafe(|| v5::udp_relay_response(sa, &data)));
+    if want_obs {
+        acc.obs = Some(match &got {
+            Ok(g) => format!("built {}", hex(&g[..g.len().min(64)])),
+            Err(_) => "panic".into(),
+        });
+    }
+    let got = match got {
+        Ok(g) => g,
+        Err(e) => {
+            acc.c("udpbuild.panic");
+            acc.v(format!("udp.build.panic.{fam}"), format!("udp_relay_response({sa}, {len} bytes) panicked: {}", panic_text(&*e)), &case);
+            return;
+        }
+    };
+    // what a conforming client recovers from the datagram
+    let seen = rf::parse_udp(&got);
+    let same = matches!(&seen, Ok(u) if u.rsv == [0, 0] && u.frag == 0 && u.addr == *addr && u.port == port && got[u.data_at..] == data[..]);
+    acc.c(if same { "udpbuild.client-recovers" } else { "udpbuild.client-mismatch" });
+    if !same {
+        let head = &got[..got.len().min(28)];
+        let what = match &seen {
+            Ok(u) => format!("RSV={} FRAG={} addr={} port={} and {} payload bytes", hex(&u.rsv), u.frag, u.addr.describe(), u.port, got.len() - u.data_at),
+            Err(f) => format!("nothing: {f:?}"),
+        };
+        acc.v(
+            format!("udp.build.client-mismatch.{fam}"),
+            format!(
+                "udp_relay_response({sa}, {len} bytes) = {}..; a client parsing per RFC 1928 §7 (RSV RSV FRAG ATYP ADDR PORT DATA) recovers {what}; expected header {}",
+                hex(head),
+                hex(&rf::build_udp([0, 0], 0, addr.atyp(), &addr.field(), port, &[]))
+            ),
+            &case,
+        );
+    }
+}
+
+fn check_udp_parse(b: &[u8], acc: &mut Acc, want_obs: bool) {
+    acc.evals += 1;
+    let case = || Case::UdpParse(b.to_vec());
+    let want = rf::parse_udp(b);
+    let got = catch_unwind(AssertUnwindSafe(|| v5::parse_udp_relay_header(Bytes::copy_from_slice(b))));
+    if want_obs {
+        acc.obs = Some(format!("{got:?}"));
+    }
+    let cls = match &want {
+        Ok(u) if u.frag != 0 => "fragment".to_string(),
+        Ok(u) if u.rsv != [0, 0] => "odd-rsv".to_string(),
+        Ok(u) => format!("valid.{}", u.addr.class()),
+        Err(f) if f.bad_atyp.is_some() => "bad-atyp".to_string(),
+        Err(_) => "truncated".to_string(),
+    };
+    let got = match got {
+        Ok(g) => g,
+        Err(e) => {
+            acc.c(&format!("udpparse.{cls}.panic"));
+            acc.v(format!("udp.parse.panic.{cls}"), format!("parse_udp_relay_header({}) panicked: {}", hex(b), panic_text(&*e)), &case());
+            return;
+        }
+    };
+    acc.c(&format!("udpparse.{cls}.{}", if got.is_ok() { "ok" } else { "err" }));
+    match (&want, &got) {
+        (Ok(u), Ok((dst, port, rest))) => {
+            if u.frag != 0 {
+                acc.v("udp.parse.accept-fragment".into(), format!("parse_udp_relay_header accepts FRAG={} in {}", u.frag, hex(b)), &case());
+                return;
+            }
+            if !rf::text_denotes(dst, &u.addr) || *port != u.port || rest.as_ref() != &b[u.data_at..] {
+                acc.v(
+                    format!("udp.parse.fields.{}", u.addr.class()),
+                    format!(
+                        "parse_udp_relay_header({}) returns addr={:?} port={port} and {} data bytes; RFC 1928 §7 assigns addr={} port={} and {} data bytes",
+                        hex(b),
+                        String::from_utf8_lossy(dst),
+                        rest.len(),
+                        u.addr.describe(),
+                        u.port,
+                        b.len() - u.data_at
+                    ),
+                    &case(),
+                );
+            }
+        }
+        (Ok(u), Err(e)) => {
+            if u.frag != 0 {
+                if matches!(e, Error::UnknownAddressType(_)) {
+                    acc.v("udp.parse.wrong-error.fragment".into(), format!("parse_udp_relay_header({}) blames the address type ({e:?}) of a fragment with a valid address type", hex(b)), &case());
+                }
+            } else if u.rsv != [0, 0] {
+                acc.c("udpparse.lenient.rejected-odd-rsv");
+            } else {
+                acc.v(format!("udp.parse.reject-valid.{}", u.addr.class()), format!("parse_udp_relay_header rejects the well-formed datagram {} with {e:?}", hex(b)), &case());
+            }
+        }
+        (Err(f), Ok((dst, port, rest))) => {
+            let key = if f.bad_atyp.is_some() { "udp.parse.accept-bad-atyp" } else { "udp.parse.accept-truncated" };
+            acc.v(
+                key.into(),
+                format!("parse_udp_relay_header({}) returns Ok(addr={:?}, port={port}, {} data bytes) although {f:?}", hex(b), String::from_utf8_lossy(dst), rest.len()),
+                &case(),
+            );
+        }
+        (Err(_), Err(e)) => {
+            // the documented variants must not be used for something they do not mean
+            let frag_applies = b.len() >= 3 && b[2] != 0;
+            let atyp_applies = |y: u8| b.len() >= 4 && b[3] == y && !matches!(y, 1 | 3 | 4);
+            match e {
+                Error::FragmentedUdp if !frag_applies => {
+                    acc.v("udp.parse.wrong-error.not-a-fragment".into(), format!("parse_udp_relay_header({}) reports FragmentedUdp, FRAG is 0 or absent", hex(b)), &case());
+                }
+                Error::UnknownAddressType(y) if !atyp_applies(*y) => {
+                    acc.v("udp.parse.wrong-error.atyp".into(), format!("parse_udp_relay_header({}) reports UnknownAddressType({y}) which is not the (unknown) ATYP of the datagram", hex(b)), &case());
+                }
+                _ => {}
+            }
+        }
+    }
+}
+
+fn check_case(c: &Case, acc: &mut Acc, want_obs: bool) {
+    match c {
+        Case::Req5(b, t) => check_req5(b, *t, acc, want_obs),
+        Case::Req4(b, t) => check_req4(b, *t, acc, want_obs),
+        Case::Auth(b, t) => check_auth(b, *t, acc, want_obs),
+        Case::Reply5 { .. } | Case::Reply5Unspec { .. } | Case::AuthSel { .. } | Case::Reply4 { .. } => check_writer(c, acc, want_obs),
+        Case::UdpBuild { addr, port, len } => check_udp_build(addr, *port, *len, acc, want_obs),
+        Case::UdpParse(b) => check_udp_parse(b, acc, want_obs),
+    }
+}
+
+// ---------------------------------------------------------------- domains
+
+fn ipv4_corners() -> Vec<[u8; 4]> {
+    let c = [0u8, 1, 127, 255];
+    let mut v = Vec::new();
+    for a in c {
+        for b in c {
+            for d in c {
+                for e in c {
+                    v.push([a, b, d, e]);
+                }
+            }
+        }
+    }
+    v
+}
+
+fn ipv6_corners(thorough: bool) -> Vec<[u8; 16]> {
+    let texts: &[&str] = &[
+        "::",
+        "::1",
+        "ffff:ffff:ffff:ffff:ffff:ffff:ffff:ffff",
+        "2001:db8::1",
+        "::ffff:1.2.3.4",
+        "::1.2.3.4",
+        "fe80::1",
+        "1:2:3:4:5:6:7:8",
+        "1:0:0:2:0:0:0:3",
+        "0:0:1::",
+        "1::",
+        "0:1:0:1:0:1:0:1",
+        "64:ff9b::7f00:1",
+        "100::",
+    ];
+    let mut v: Vec<[u8; 16]> = texts.iter().map(|t| t.parse::<Ipv6Addr>().expect("corner").octets()).collect();
+    if thorough {
+        // every single non-zero group position, and every zero-run position/length
+        for g in 0..8 {
+            let mut o = [0u8; 16];
+            o[2 * g] = 0xab;
+            o[2 * g + 1] = 0xcd;
+            v.push(o);
+        }
+        for start in 0..8 {
+            for run in 1..=(8 - start) {
+                let mut o = [0x11u8; 16];
+                for g in start..start + run {
+                    o[2 * g] = 0;
+                    o[2 * g + 1] = 0;
+                }
+                v.push(o);
+            }
+        }
+    }
+    v.sort_unstable();
+    v.dedup();
+    v
+}
+
+fn fill(len: usize, which: u8) -> Vec<u8> {
+    match which {
+        0 => vec![0x00; len],
+        1 => vec![0xff; len],
+        _ => (0..len).map(|i| b"a.0\xff\x00-Z\x01"[i % 8]).collect(),
+    }
+}
+
+/// Non-NUL filler for SOCKS4 strings.
+fn fill_nonul(len: usize, which: u8) -> Vec<u8> {
+    match which {
+        0 => vec![0xff; len],
+        _ => (0..len).map(|i| b"a.0\xff\x01-Z"[i % 7]).collect(),
+    }
+}
+
+/// Address fields of the SOCKS5 domain: (atyp, raw field).
+fn addr_fields(thorough: bool) -> Vec<(u8, Vec<u8>)> {
+    let mut v: Vec<(u8, Vec<u8>)> = Vec::new();
+    for o in ipv4_corners() {
+        v.push((1, o.to_vec()));
+    }
+    for o in ipv6_corners(thorough) {
+        v.push((4, o.to_vec()));
+    }
+    let mut lens = vec![0usize, 1, 2, 254, 255];
+    if thorough {
+        lens.extend([3, 4, 15, 16, 17, 127, 128]);
+    }
+    let mut seen = HashSet::new();
+    for len in lens {
+        for w in 0..3 {
+            let d = fill(len, w);
+            if seen.insert(d.clone()) {
+                v.push((3, Addr::Domain(d).field()));
+            }
+        }
+    }
+    let mut odd = vec![0u8, 2, 5];
+    if thorough {
+        odd.extend([6, 0x7f, 0x80, 0xff]);
+    }
+    for a in odd {
+        v.push((a, vec![1, 2, 3, 4]));
+    }
+    v
+}
+
+/// 128-bit fingerprint for de-duplicating inputs without keeping them.
+fn fingerprint(b: &[u8]) -> (u64, u64) {
+    let mut h1 = std::collections::hash_map::DefaultHasher::new();
+    b.hash(&mut h1);
+    let mut h2 = std::collections::hash_map::DefaultHasher::new();
+    0x9e37_79b9_7f4a_7c15u64.hash(&mut h2);
+    b.hash(&mut h2);
+    b.len().hash(&mut h2);
+    (h1.finish(), h2.finish())
+}
+
+/// Run `produce` on this thread; it emits inputs, duplicates are dropped, the
+/// distinct ones are handed in batches to `threads` workers running `work`.
+/// Returns the merged accumulators and the number of distinct inputs.
+fn stream<P, W>(threads: usize, produce: P, work: W) -> (Acc, u64)
+where
+    P: FnOnce(&mut dyn FnMut(Vec<u8>)),
+    W: Fn(&[u8], &mut Acc) + Sync,
+{
+    let (tx, rx) = std::sync::mpsc::sync_channel::<Vec<Vec<u8>>>(64);
+    let rx = Mutex::new(rx);
+    let total = Mutex::new(Acc::default());
+    let mut distinct = 0u64;
+    std::thread::scope(|s| {
+        for _ in 0..threads.max(1) {
+            let (rx, total, work) = (&rx, &total, &work);
+            s.spawn(move || {
+                let mut acc = Acc::default();
+                loop {
+                    let batch = { rx.lock().unwrap().recv() };
+                    let Ok(batch) = batch else { break };
+                    for input in &batch {
+                        work(input, &mut acc);
+                    }
+                }
+                total.lock().unwrap().merge(acc);
+            });
+        }
+        let mut seen: HashSet<(u64, u64)> = HashSet::new();
+        let mut batch: Vec<Vec<u8>> = Vec::with_capacity(256);
+        let mut emit = |b: Vec<u8>| {
+            if seen.insert(fingerprint(&b)) {
+                batch.push(b);
+                if batch.len() >= 256 {
+                    tx.send(std::mem::take(&mut batch)).expect("workers alive");
+                }
+            }
+        };
+        produce(&mut emit);
+        if !batch.is_empty() {
+            tx.send(batch).expect("workers alive");
+        }
+        distinct = seen.len() as u64;
+        drop(tx);
+    });
+    (total.into_inner().unwrap(), distinct)
+}
+
+/// Emit `full`, `full` + each trailer, and every proper prefix of `full`.
+fn emit_with_cuts(full: &[u8], trailers: &[&[u8]], emit: &mut dyn FnMut(Vec<u8>)) {
+    emit(full.to_vec());
+    for t in trailers {
+        let mut v = full.to_vec();
+        v.extend_from_slice(t);
+        emit(v);
+    }
+    for cut in 0..full.len() {
+        emit(full[..cut].to_vec());
+    }
+}
 
 pub fn run(args: &Args) -> Report {
+    crate::sim::install_quiet_panic_hook();
     let mut rep = Report::new("C18", &args.tier, "enum", "exploration");
-    rep.machinery_error = Some("not built yet".into());
+    let thorough = args.thorough();
+    let threads = args.threads.max(1);
+
+    if let Some(v) = args.replay_json() {
+        let case = Case::from_json(&v);
+        let mut a1 = Acc::default();
+        check_case(&case, &mut a1, true);
+        let mut a2 = Acc::default();
+        check_case(&case, &mut a2, true);
+        rep.evaluations = 2;
+        rep.distinct_nontrivial = 1;
+        rep.rule = "replay of one recorded case, run twice".into();
+        rep.extra.insert("replayed".into(), case.to_json());
+        rep.extra.insert("observation".into(), json!(a1.obs));
+        if a1.obs != a2.obs {
+            rep.machinery_error = Some(format!("replay is not deterministic: {:?} vs {:?}", a1.obs, a2.obs));
+        }
+        for (k, (d, r, _, n)) in a1.viol {
+            rep.violation_n(k, d, r, n);
+        }
+        return rep;
+    }
+
+    let mut total = Acc::default();
+    let mut distinct_total = 0u64;
+
+    // ---- SOCKS5 requests
+    let fields = addr_fields(thorough);
+    let versions: &[u8] = if thorough { &[0, 4, 5, 6, 0xff] } else { &[4, 5, 6] };
+    let cmds: &[u8] = if thorough { &[0, 1, 2, 3, 4, 0xff] } else { &[1, 2, 3, 0xff] };
+    let rsvs: &[u8] = if thorough { &[0, 1, 0xff] } else { &[0, 1] };
+    let ports: &[u16] = if thorough { &[0, 1, 0x0050, 0x5000, 0xff00, 0xffff] } else { &[0, 1, 0xffff] };
+    let trailers5: [&[u8]; 2] = [&[0x05], &[0x00, 0x05, 0x01, 0x00, 0x01]];
+    let mut n_req5 = 0u64;
+    let (acc, d) = stream(
+        threads,
+        |emit| {
+            for &ver in versions {
+                for &cmd in cmds {
+                    for &rsv in rsvs {
+                        for (atyp, field) in &fields {
+                            for &port in ports {
+                                n_req5 += 1;
+                                let r = rf::build_request5(ver, cmd, rsv, *atyp, field, port);
+                                emit_with_cuts(&r, &trailers5, &mut *emit);
+                            }
+                        }
+                    }
+                }
+            }
+        },
+        |input, acc| {
+            for tr in TRANSPORTS {
+                check_req5(input, tr, acc, false);
+            }
+        },
+    );
+    total.merge(acc);
+    distinct_total += d;
+    rep.bounds.insert("socks5_requests_built".into(), json!(n_req5));
+    rep.bounds.insert("socks5_request_inputs_distinct".into(), json!(d));
+
+    // ---- SOCKS5 method negotiation
+    let (acc, d) = stream(
+        threads,
+        |emit| {
+            for n in [0usize, 1, 2, 255] {
+                for w in 0..3u8 {
+                    let mut m = vec![n as u8];
+                    m.extend(fill(n, w));
+                    emit_with_cuts(&m, &[&[0x05][..], &[0x00, 0x02][..]], &mut *emit);
+                }
+            }
+        },
+        |input, acc| {
+            for tr in TRANSPORTS {
+                check_auth(input, tr, acc, false);
+            }
+            check_auth(input, CURSOR, acc, false);
+        },
+    );
+    total.merge(acc);
+    distinct_total += d;
+    rep.bounds.insert("auth_method_inputs_distinct".into(), json!(d));
+
+    // ---- SOCKS4 / SOCKS4a requests
+    let cmds4: &[u8] = if thorough { &[0, 1, 2, 9, 0xff] } else { &[1, 2, 9] };
+    let ports4: &[u16] = if thorough { &[0, 1, 0x0050, 0x5000, 0xffff] } else { &[0, 0x0050, 0xffff] };
+    let ips_plain: &[[u8; 4]] = &[[127, 0, 0, 1], [255, 255, 255, 255], [1, 0, 0, 0], [10, 0, 0, 255]];
+    let ips_4a: &[[u8; 4]] = &[[0, 0, 0, 1], [0, 0, 0, 255]];
+    let ips_out: &[[u8; 4]] = &[[0, 0, 0, 0], [0, 0, 1, 0], [0, 1, 0, 0], [0, 255, 255, 255], [0, 0, 1, 1]];
+    let short_users: Vec<Vec<u8>> = vec![vec![], b"a".to_vec(), b"\xffroot".to_vec()];
+    let short_domains: Vec<Vec<u8>> = vec![vec![], b"a".to_vec(), b"www.example.com".to_vec(), b"1.2.3.4".to_vec()];
+    let mut long_lens = vec![255usize];
+    if thorough {
+        long_lens.extend([254, 256, 300]);
+    }
+    let trailers4: [&[u8]; 2] = [&[0x61, 0x00, 0x62], &[0x00, 0x01]];
+    let mut n_req4 = 0u64;
+    let (acc, d) = stream(
+        threads,
+        |emit| {
+            let mut one = |cmd: u8, port: u16, ip: [u8; 4], user: &[u8], dom: Option<&[u8]>| {
+                n_req4 += 1;
+                let r = rf::build_request4(cmd, port, ip, user, dom);
+                emit_with_cuts(&r, &trailers4, &mut *emit);
+            };
+            for &cmd in cmds4 {
+                for &port in ports4 {
+                    // long fields only with one (cmd, port) in the quick tier: the
+                    // reader's treatment of the strings does not look at either
+                    let with_long = thorough || (cmd == 1 && port == 0x0050);
+                    let mut users = short_users.clone();
+                    let mut domains = short_domains.clone();
+                    if with_long {
+                        for &l in &long_lens {
+                            for w in 0..2 {
+                                users.push(fill_nonul(l, w));
+                                domains.push(fill_nonul(l, w));
+                            }
+                        }
+                    }
+                    for user in &users {
+                        for &ip in ips_plain {
+                            one(cmd, port, ip, user, None);
+                        }
+                        for &ip in ips_4a.iter().chain(ips_out) {
+                            for dom in &domains {
+                                one(cmd, port, ip, user, Some(dom));
+                            }
+                            // a SOCKS4a-looking address without any domain part
+                            one(cmd, port, ip, user, None);
+                        }
+                    }
+                }
+            }
+        },
+        |input, acc| {
+            for tr in TRANSPORTS {
+                check_req4(input, tr, acc, false);
+            }
+            check_req4(input, CURSOR, acc, false);
+        },
+    );
+    total.merge(acc);
+    distinct_total += d;
+    rep.bounds.insert("socks4_requests_built".into(), json!(n_req4));
+    rep.bounds.insert("socks4_request_inputs_distinct".into(), json!(d));
+
+    // ---- replies
+    let mut writer_cases: Vec<Case> = Vec::new();
+    let rports: &[u16] = &[0, 1, 0x1f90, 0xffff];
+    let v4s = ipv4_corners();
+    let v6s = ipv6_corners(thorough);
+    for rep_code in 0..=255u8 {
+        for trickle in [false, true] {
+            for &port in rports {
+                for o in &v4s {
+                    writer_cases.push(Case::Reply5 { rep: rep_code, addr: Addr::V4(*o), port, scoped: false, trickle });
+                }
+                for o in &v6s {
+                    for scoped in [false, true] {
+                        writer_cases.push(Case::Reply5 { rep: rep_code, addr: Addr::V6(*o), port, scoped, trickle });
+                    }
+                }
+            }
+            writer_cases.push(Case::Reply5Unspec { rep: rep_code, trickle });
+            writer_cases.push(Case::AuthSel { method: rep_code, trickle });
+            writer_cases.push(Case::Reply4 { rep: rep_code, trickle });
+        }
+    }
+    // ---- UDP relay datagrams built by the subject
+    let pay_lens: &[usize] = if thorough { &[0, 1, 2, 3, 4, 255, 256, 1500, 65507] } else { &[0, 1, 2, 1500] };
+    let uports: &[u16] = &[0, 1, 0x0035, 0xffff];
+    let mut build_cases: Vec<Case> = Vec::new();
+    for &len in pay_lens {
+        for &port in uports {
+            for o in &v4s {
+                build_cases.push(Case::UdpBuild { addr: Addr::V4(*o), port, len });
+            }
+            for o in &v6s {
+                build_cases.push(Case::UdpBuild { addr: Addr::V6(*o), port, len });
+            }
+        }
+    }
+    rep.bounds.insert("reply_cases".into(), json!(writer_cases.len()));
+    rep.bounds.insert("udp_build_cases".into(), json!(build_cases.len()));
+    distinct_total += (writer_cases.len() + build_cases.len()) as u64;
+    let all: Vec<Case> = writer_cases.into_iter().chain(build_cases).collect();
+    let merged = Mutex::new(Acc::default());
+    std::thread::scope(|s| {
+        let chunk = all.len().div_ceil(threads);
+        for part in all.chunks(chunk.max(1)) {
+            let merged = &merged;
+            s.spawn(move || {
+                let mut acc = Acc::default();
+                for c in part {
+                    check_case(c, &mut acc, false);
+                }
+                merged.lock().unwrap().merge(acc);
+            });
+        }
+    });
+    total.merge(merged.into_inner().unwrap());
+
+    // ---- UDP relay datagrams parsed by the subject
+    let frags: &[u8] = if thorough { &[0, 1, 0x7f, 0xff] } else { &[0, 1] };
+    let ursvs: &[[u8; 2]] = if thorough { &[[0, 0], [0, 1], [0xff, 0]] } else { &[[0, 0], [0, 1]] };
+    let upays: &[usize] = if thorough { &[0, 1, 2, 3, 5, 64] } else { &[0, 1, 2, 5] };
+    let mut n_udp = 0u64;
+    let (acc, d) = stream(
+        threads,
+        |emit| {
+            for &rsv in ursvs {
+                for &frag in frags {
+                    for (atyp, field) in &fields {
+                        for &port in ports {
+                            for &pl in upays {
+                                n_udp += 1;
+                                let dgram = rf::build_udp(rsv, frag, *atyp, field, port, &payload(pl));
+                                emit_with_cuts(&dgram, &[], &mut *emit);
+                            }
+                        }
+                    }
+                }
+            }
+        },
+        |input, acc| check_udp_parse(input, acc, false),
+    );
+    total.merge(acc);
+    distinct_total += d;
+    rep.bounds.insert("udp_datagrams_built".into(), json!(n_udp));
+    rep.bounds.insert("udp_parse_inputs_distinct".into(), json!(d));
+
+    // ---- report
+    rep.evaluations = total.evals;
+    rep.distinct_nontrivial = distinct_total;
+    rep.exhaustive = true;
+    rep.rule = "requests: product of boundary values per field (version, command, RSV, ATYP, address corners, domain length/filling, port; SOCKS4: CD, port, DSTIP class, user-id and domain strings), each with trailing bytes and cut at EVERY byte position, each distinct input fed through all-at-once / one-byte-per-poll / BufReader delivery ending in EOF or in silence; replies: every code x address corners x ports; UDP: subject-built datagrams parsed by the reference client, reference-built datagrams (all ATYP, FRAG, RSV, every truncation) parsed by the subject. A case is distinct when its input byte string (or argument tuple) is distinct".into();
+    rep.bounds.insert("versions".into(), json!(versions));
+    rep.bounds.insert("commands".into(), json!(cmds));
+    rep.bounds.insert("rsv".into(), json!(rsvs));
+    rep.bounds.insert("ports".into(), json!(ports));
+    rep.bounds.insert("address_fields".into(), json!(fields.len()));
+    rep.bounds.insert("ipv4_corners".into(), json!(v4s.len()));
+    rep.bounds.insert("ipv6_corners".into(), json!(v6s.len()));
+    rep.bounds.insert("udp_payload_lengths_built".into(), json!(pay_lens));
+    rep.bounds.insert("transports".into(), json!(TRANSPORTS.iter().map(|t| t.name()).chain(std::iter::once(CURSOR.name())).collect::<Vec<_>>()));
+    rep.extra.insert("classes".into(), json!(total.cls));
+    rep.extra.insert("build_profile".into(), json!(if cfg!(debug_assertions) { "checked" } else { "release" }));
+    rep.assumptions.push("reference grammar written from RFC 1928 §3-§7 and the SOCKS4/SOCKS4a notes; IPv6 text returned by the readers is accepted in any RFC 4291 spelling of the same 16 octets".into());
+    rep.assumptions.push("lenient by design (either an error or the exact fields is accepted): non-zero RSV, undefined CMD/CD values, an empty SOCKS4a domain; DSTIP in 0.0.0.0/8 other than 0.0.0.x (x != 0) only has to terminate without panic; DSTPORT/DSTIP of a SOCKS4 reply are not compared (ignored by clients for CONNECT)".into());
+    rep.assumptions.push("bytes of addresses/strings beyond the listed fillings are not enumerated (the readers do not branch on them, except NUL which every filling class covers)".into());
+    rep.sample(json!({"socks5_request": hex(&rf::build_request5(5, 1, 0, 3, &Addr::Domain(b"a.0".to_vec()).field(), 0xffff)), "fed": "whole, +trailers, every prefix; 5 transports"}));
+    rep.sample(json!({"socks4a_request_after_VN": hex(&rf::build_request4(1, 0x50, [0, 0, 0, 1], b"a", Some(b"www.example.com"))), "fed": "whole, +trailers, every prefix; 6 transports"}));
+    rep.sample(json!({"udp_build": "udp_relay_response(127.0.0.1:53, 2 bytes) parsed by the reference client"}));
+    rep.sample(json!({"udp_parse_input": hex(&rf::build_udp([0, 0], 0, 4, &[0x11; 16], 1, &payload(2)))}));
+    let mut keys: Vec<_> = total.viol.into_iter().collect();
+    keys.sort_by(|a, b| a.0.cmp(&b.0));
+    for (k, (d, r, _, n)) in keys {
+        rep.violation_n(k, d, r, n);
+    }
+    // vacuity guard: the domain must exercise acceptance, rejection and waiting
+    let count = |p: &str| -> u64 { total.cls.iter().filter(|(k, _)| k.starts_with(p)).map(|(_, n)| *n).sum() };
+    let need = [
+        ("req5.complete.", "well-formed SOCKS5 requests"),
+        ("req5.truncated.", "truncated SOCKS5 requests"),
+        ("req5.bad-atyp.", "SOCKS5 requests with unknown ATYP"),
+        ("req4.complete.socks4.", "SOCKS4 requests"),
+        ("req4.complete.socks4a.", "SOCKS4a requests"),
+        ("req4.truncated.", "truncated SOCKS4 requests"),
+        ("udpparse.valid.", "valid UDP datagrams"),
+        ("udpparse.truncated.", "truncated UDP datagrams"),
+        ("udpbuild.", "UDP build cases"),
+        ("reply5.", "SOCKS5 replies"),
+    ];
+    for (p, what) in need {
+        if count(p) == 0 {
+            rep.machinery_error = Some(format!("vacuous run: no {what} in the enumerated domain"));
+        }
+    }
+    let oks: u64 = total.cls.iter().filter(|(k, _)| k.ends_with(".ok")).map(|(_, n)| *n).sum();
+    let errs: u64 = total.cls.iter().filter(|(k, _)| k.ends_with(".err")).map(|(_, n)| *n).sum();
+    let waits: u64 = total.cls.iter().filter(|(k, _)| k.ends_with(".waits")).map(|(_, n)| *n).sum();
+    rep.extra.insert("subject_outcomes".into(), json!({"ok": oks, "err": errs, "waits": waits}));
+    if oks == 0 || errs == 0 || waits == 0 {
+        rep.machinery_error = Some("vacuous run: the subject never accepted / never rejected / never waited".into());
+    }
     rep
 }
